@@ -31,6 +31,7 @@ def main():
             rc, o = sh(f"cargo test --offline {test_name} 2>&1 | grep -E '^test result|FAILED|panicked' | head -3", wt)
             return o.strip().replace("\n", " | ")
         elif os.path.exists(f"{out}/demo.sh"):
+            sh("cargo build --offline", wt)
             rc, o = sh(f"bash {out}/demo.sh", wt)
             return f"exit {rc}: " + o.strip()[-300:].replace("\n", " | ")
         return "no demo"
